@@ -20,6 +20,8 @@ import (
 	rm "verifharness/internal/reflectmsg"
 
 	"github.com/free5gc/nas"
+	"github.com/free5gc/nas/logger"
+	"github.com/sirupsen/logrus"
 )
 
 type Case struct {
@@ -129,6 +131,10 @@ func runDec(entry string, inp []byte, big int, bm string, proj bool) Dec {
 	var cp *[]byte
 	if inp != nil {
 		c := spare(inp)
+		if len(inp) < 8 { // short inputs with NOTHING behind them (capacity = length): a reslice past the end panics here
+			c = make([]byte, len(inp))
+			copy(c, inp)
+		}
 		cp = &c
 	}
 	m := nas.NewMessage()
@@ -350,8 +356,35 @@ type PureD struct {
 	DTwice   rm.Proj `json:"d_twice"`    // projection of a second, independent decode
 }
 
-func runPureD(entry string, inp []byte) PureD {
+func runPureD(entry string, inp []byte, bm string) PureD {
 	e := PureD{Op: "PureD", Entry: entry, Inp: ev.Ints(inp), InpAfter: []int{}, InpScr: []int{}, D1: rm.EmptyProj(), DScr: rm.EmptyProj(), DTwice: rm.EmptyProj()}
+	if entry == "body" {
+		// a body decoder called directly (the security-protected envelope): input unchanged, two decodes agree
+		pi := ev.Guard(func() {
+			cp := make([]byte, len(inp))
+			copy(cp, inp)
+			p1, err, perr := rm.DecodeBody(bm, cp)
+			if perr != nil {
+				ev.Fatal("%v", perr)
+			}
+			e.InpAfter = ev.Ints(cp)
+			e.Ok = err == nil
+			if e.Ok {
+				e.D1, e.DScr = p1, p1
+			}
+			for i := range cp {
+				cp[i] = ^cp[i]
+			}
+			e.InpScr = ev.Ints(cp)
+			if p2, err2, _ := rm.DecodeBody(bm, spare(inp)); err2 == nil {
+				e.DTwice = p2
+			}
+		})
+		if pi != nil {
+			e.Panic, e.Pfn = true, pi.Fn+": "+pi.Kind
+		}
+		return e
+	}
 	pi := ev.Guard(func() {
 		cp := make([]byte, len(inp)) // capacity = length exactly: nothing behind the input
 		copy(cp, inp)
@@ -373,6 +406,11 @@ func runPureD(entry string, inp []byte) PureD {
 		interleave()
 		m2 := nas.NewMessage()
 		cp2 := spare(inp) // same octets, other memory around them: the result is a function of the octets only
+		// ... and of nothing else: the second decode runs with the library's logger at trace level
+		lg := logger.GetLogger()
+		lvl := lg.GetLevel()
+		lg.SetLevel(logrus.TraceLevel)
+		defer lg.SetLevel(lvl)
 		if err2 := decodeEntry(m2, entry, &cp2); err2 == nil {
 			e.DTwice = rm.Project(m2)
 			remember(m2)
@@ -585,7 +623,7 @@ func execCase(c Case, rng *rand.Rand, emit func(interface{})) {
 	case "re":
 		emit(runRe(ev.Bytes(c.Inp)))
 	case "pured":
-		emit(runPureD(c.Entry, ev.Bytes(c.Inp)))
+		emit(runPureD(c.Entry, ev.Bytes(c.Inp), c.M))
 	case "puree":
 		emit(runPureE(c))
 	case "encdisp":
